@@ -81,6 +81,9 @@ def _build(spec):
         ds = ds.intersperse(ds)
     elif wrap == 'prefetch_pool':
         ds = ds.prefetch(2, 2)
+    elif wrap == 'prefetch_single':
+        # the single-thread fallback (iterates its input in a worker thread)
+        ds = ds.prefetch(1, 1 + spec['seed'] % 3)
     elif wrap == 'prefetch_alias1':
         # one worker of the thread pool (the documented alias spelling selects
         # the pool path, which freezes the reshuffle per iteration)
@@ -128,6 +131,10 @@ def gen_spec(rng):
         # iterators in flight are independent of each other there; and a copy()
         # of the dataset iterated next to the original
         spec['wrap'] = rng.choice(['prefetch_pool', 'prefetch_alias1', 'catch', 'copy_pair'])
+    elif n > 0 and n <= 12 and not spec.get('items') and rng.random() < 0.08:
+        # any shuffle behind the single-thread prefetch (timed waits of the
+        # hand-over queue may fire at any moment under the scheduler)
+        spec['wrap'] = 'prefetch_single'
     return spec
 
 
@@ -282,7 +289,7 @@ def run_rounds(case):
 def run(case):
     if case.get('mode') == 'rounds':
         return run_rounds(case)
-    if case['spec'].get('wrap') in ('prefetch_pool', 'prefetch_alias1'):
+    if case['spec'].get('wrap') in ('prefetch_pool', 'prefetch_alias1', 'prefetch_single'):
         from .. import sim as S
         from lazy_dataset import parallel_utils as ldp
         from lazy_dataset import core as ldc_
